@@ -309,7 +309,7 @@ def _general():
     c = np.diag([200.0 + 11 * s, 250.0 - 7 * s, 300.0 + 5 * s, 80.0 + 3 * s, 100.0 - 2 * s, 110.0 + 4 * s])
     for i in range(5):
         for n, j in enumerate(range(i + 1, 6)):
-            c[i, j] = c[j, i] = vals[i][n] * (0.7 + 0.06 * s) * (-1.0) ** (i + j + s)
+            c[i, j] = c[j, i] = vals[i][n] * (0.55 + 0.03 * s) * (-1.0) ** (i + j + s)      # positive definite with margin for every s
     out.append(('dense-seed-slice', c))
     for name, c in out:
         assert _spd_ok(c), name
